@@ -307,10 +307,10 @@ class ErrMsgI(Interface):
                'plain_symbol_name_is_reserved_word': Method(returns=Str)}
 
 
-def _mk_parser(num_levels, width):
+def _mk_parser(num_levels, width, grammar_only=False):
     """a `_Parser` over the world: `num_levels` precedence levels; `width` names per level in the `__seq` table"""
 
-    def mk(interp, name):
+    def mk_grammar(interp, name):
         g = object.__new__(expression_grammar.Grammar)
         g.concept = new_opaque(interp, ConceptI, name + '.grammar.concept')
         g.primitives = new_opaque(interp, PrimTableI, name + '.grammar.primitives')
@@ -323,6 +323,14 @@ def _mk_parser(num_levels, width):
         g.infix_ops_inc_precedence__seq = tuple(
             tuple(NameAndValue(interp.call(w_seq_name, [k, j], {}), None) for j in range(width))
             for k in range(num_levels))
+        return g
+
+    if grammar_only:
+        return Custom(lambda interp, name: mk_grammar(interp, name[:-len('.grammar')] if name.endswith('.grammar')
+                                                      else name))
+
+    def mk(interp, name):
+        g = mk_grammar(interp, name)
         p = object.__new__(expression_parser._Parser)
         p.grammar = g
         p.parser = TOKEN_PARSER.make(interp, name + '.parser')
@@ -335,6 +343,7 @@ def _mk_parser(num_levels, width):
 
 MAX_LEVELS = 2        # the grammars of the program have 0 (files-condition...), 1 (transformers: |) or 2 (matchers) levels
 PARSER = Union(*[_mk_parser(n, 1) for n in range(MAX_LEVELS + 1)])
+GRAMMAR = Union(*[_mk_parser(n, 1, grammar_only=True) for n in range(MAX_LEVELS + 1)])
 
 
 def levels_of(n):
@@ -793,3 +802,47 @@ M.loop(P_PARSER + ':_Parser.infix_op_sequence_for_single_op', 0,
              run_val(num_levels(self), pos_of(self) - 1, operator_name, is_inside_parens, operator.level,
                      seq_code(operands, operator.level, operator.name))),
        modifies={'operands': MListOf(Int), 'self.parser._token_stream.pos': Nat})
+
+
+# ============================================================================== the two entries: parsers(b).full / .simple
+# `parsers(grammar, b)` wraps these two classes (`parser_for_must_be_on_current_line`: an additional "the current line
+# is not empty" check in front when b).  `_Parser.__init__` is interpreted from its real source here.
+
+def _n_levels(self):
+    return len(self._grammar.infix_ops_inc_precedence)
+
+
+_STREAM_POS = lambda parser: parser._token_stream.pos
+
+M.contract(P_PARSER + ':_FullParserOnAnyLineParser.parse_from_token_parser',
+           params=dict(self=Inst(expression_parser._FullParserOnAnyLineParser, _grammar=GRAMMAR), parser=TOKEN_PARSER),
+           returns=Int, requires=lambda self: grammar_ok(_n_levels(self)),
+           setup=_unfold((bridge, lambda self, parser: (_n_levels(self), parser._token_stream.pos, ANY_LINE, 0))),
+           old=_STREAM_POS, modifies={'parser._token_stream.pos': Nat},
+           raises={SIIAE: {'ensures': lambda self, parser, old:
+                           _expr_end(_n_levels(self), old, ANY_LINE, 0) < 0 and parser._token_stream.pos >= old}},
+           ensures={
+               'the full parser reads exactly the full expression of the documented grammar: operators of the lowest '
+               'precedence outermost, an operator on the line of the operand before it; nothing more is consumed':
+                   lambda self, parser, old, result:
+                   _expr_end(_n_levels(self), old, ANY_LINE, 0) == parser._token_stream.pos
+                   and _expr_val(_n_levels(self), old, ANY_LINE, 0) == result,
+           }, raises_only=())
+
+M.contract(P_PARSER + ':_SimpleParserOnAnyLineParser.parse_from_token_parser',
+           params=dict(self=Inst(expression_parser._SimpleParserOnAnyLineParser, _grammar=GRAMMAR), parser=TOKEN_PARSER),
+           returns=Int, requires=lambda self: grammar_ok(_n_levels(self)),
+           old=_STREAM_POS, modifies={'parser._token_stream.pos': Nat},
+           raises={SIIAE: {'ensures': lambda self, parser, old:
+                           _prim_end(_n_levels(self), old, False) < 0 and parser._token_stream.pos >= old}},
+           ensures={
+               'the simple parser reads exactly one primitive': lambda self, parser, old, result:
+               _prim_end(_n_levels(self), old, False) == parser._token_stream.pos
+               and _prim_val(_n_levels(self), old, False) == result,
+               # (by the defining equation of prim_end: where a leaf ends does not depend on the token after it)
+               'a leaf is read up to the end of its own syntax: a following infix operator is not consumed':
+                   (lambda self, parser, old:
+                    _defs(prim_end(_n_levels(self), old, False))
+                    and implies(plain_at(old) and w_string(old) != '(' and not w_is_prefix(w_string(old)),
+                                parser._token_stream.pos == leaf_end(w_string(old), old + 1)), 'check-only'),
+           }, raises_only=())
